@@ -18,6 +18,8 @@ import (
 
 func h(k, v int) Op            { return Op{Kind: Handle, Key: k, Ver: v} }
 func u(k, v int) Op            { return Op{Kind: Update, Key: k, Ver: v} }
+func hv(k, v int) Op           { return Op{Kind: Handle, Key: k, Ver: v, Via: true} }
+func uv(k, v int) Op           { return Op{Kind: Update, Key: k, Ver: v, Via: true} }
 func d(k int) Op               { return Op{Kind: Delete, Key: k} }
 func rd(kind string, k int) Op { return Op{Kind: kind, Key: k} }
 
@@ -94,6 +96,26 @@ func Generated(quick bool) []*Program {
 							{rd(Serve, a.Key), rd(Serve, b.Key), {Kind: IterAll}}}})
 				}
 			}
+		}
+	}
+	// g6: every pair of one-shot writer entry points of the router in which at least one goes through a
+	// route object (NewRoute + HandleRoute / UpdateRoute), on different and on the same key
+	forms := []Op{h(1, 2), hv(1, 2), u(0, 3), uv(0, 3), d(0), hv(2, 4), {Kind: Txn, End: EndUpdatesNil, Sub: []Op{uv(0, 5), hv(1, 5)}}}
+	for i, a := range forms {
+		for j := i; j < len(forms); j++ {
+			b := forms[j]
+			if !a.Via && !b.Via && a.Kind != Txn && b.Kind != Txn {
+				continue
+			}
+			if j == i {
+				b.Ver += 10
+				b.Sub = append([]Op(nil), b.Sub...)
+				for k := range b.Sub {
+					b.Sub[k].Ver += 10
+				}
+			}
+			out = append(out, &Program{Name: fmt.Sprintf("g6-%d-%d", i, j), Init: State{1, 0, 0, 0, 0, 0},
+				Threads: [][]Op{{a}, {b}, {rd(Serve, 0), rd(Has, 1), {Kind: IterAll}}}})
 		}
 	}
 	// g4: a request whose answer is computed from several lookups (405 Allow list) while a transaction
